@@ -11,7 +11,8 @@
     complete new content, [d0 (File (dest s))] the previous one. *)
 From Coq Require Import List Bool Arith.
 From SV Require Import SM.AtomicWriter SM.AtomicWriterProofs SM.AtomicWriterThms SM.AtomicExit SM.AtomicExitProofs
-  SM.AtomicOpenLoopProofs SM.AtomicSameDestProofs SM.AtomicReuse SM.AtomicReuseProofs.
+  SM.AtomicOpenLoopProofs SM.AtomicSameDestProofs SM.AtomicReuse SM.AtomicReuseProofs SM.AtomicRetry
+  SM.AtomicRetryProofs SM.AtomicProduct SM.AtomicProductProofs.
 Import ListNotations.
 
 (** Old or new, never a mixture; new exactly when the replace has succeeded — at every point of every execution,
@@ -357,3 +358,183 @@ Theorem c12_save_history_example :
   let h := [(true, sc_a, repeat false 7); (false, sc_a, []); (true, sc_raise, repeat false 6)] in
   shclean x h d_old /\ shfinal x h d_old (File 0) = Some [1; 2; 3] /\ shfinal x h d_old (Tmp 1) = d_old (Tmp 1).
 Proof. exact save_history_example. Qed.
+
+(** * Round 4: refused operations by exception class, bounded retries (SM/AtomicRetry.v)
+
+    [with_class r o] is the object [o] with the handler classes of its [__exit__] specialised to runs in which every
+    refused operation raises class [r] (an OSError that is no named subclass / the c-th named subclass: PermissionError,
+    FileExistsError, ... / KeyboardInterrupt); all theorems above that speak about objects and protocols apply to
+    [with_class r o] and [class_proto o r], and the check discharges their hypotheses for every run class.
+    [SFor n body orelse] / [SBreak] / [SContinue] make a retry loop a statement like any other; its decision tree is a
+    chain of renames, which [collapse] merges. *)
+
+(** The [with] statement of a finished writer returns normally exactly when its rename succeeded — for ANY protocol
+    whose trees pass [proto_outcome_ok] (no family membership needed), after every schedule of two writers. *)
+Theorem c12_returns_normally_iff_committed : forall x, proto_outcome_ok x = true -> forall d0 s1 s2 sched,
+  let st := run2t x s1 s2 sched (startt d0) in
+  (forall r l b, q1 st = TDone r l b -> b = negb (committedt (q1 st))) /\
+  (forall r l b, q2 st = TDone r l b -> b = negb (committedt (q2 st))).
+Proof. exact outcome_inv. Qed.
+
+(** Stutter simulation: every run of a protocol is, up to refused renames / unlinks that are tried again, a run of the
+    collapsed protocol: same directory, related program counters, and every event of the collapsed run happened. *)
+Theorem c12_retry_run_is_a_run_of_the_collapsed_protocol : forall x s1 s2 sched d0,
+  exists sched', Rc (run2t x s1 s2 sched (startt d0)) (run2t (collapse_proto x) s1 s2 sched' (startt d0)).
+Proof. intros x s1 s2 sched d0. exact (run2t_collapse x s1 s2 sched _ _ (Rc_start d0)). Qed.
+
+(** The property for protocols with retries ([retry_safe] / [retry_ok]: the collapsed protocol is in the good part of
+    the five-flag family). *)
+Theorem c12_retry_crash_atomic : forall x d0 s1 s2, dest s1 <> dest s2 -> retry_safe x = true -> forall sched,
+  let st := run2t x s1 s2 sched (startt d0) in
+  sdt st (File (dest s1)) = (if committedt (q1 st) then Some (new s1) else d0 (File (dest s1))) /\
+  sdt st (File (dest s2)) = (if committedt (q2 st) then Some (new s2) else d0 (File (dest s2))).
+Proof. exact retry_crash_atomic. Qed.
+
+(** With retries "a refused operation => never commits" is false and not wanted (refused once, accepted at the next
+    attempt: commits).  What the property asks: the write FAILED (the with statement raised) => previous contents. *)
+Theorem c12_retry_failure_keeps_old : forall x d0 s1 s2, dest s1 <> dest s2 -> retry_safe x = true ->
+  proto_outcome_ok x = true -> forall sched,
+  let st := run2t x s1 s2 sched (startt d0) in
+  forall r l, q1 st = TDone r l true -> committedt (q1 st) = false /\ sdt st (File (dest s1)) = d0 (File (dest s1)).
+Proof. exact retry_failure_keeps_old. Qed.
+
+Theorem c12_retry_body_exception_keeps_old : forall x d0 s1 s2, dest s1 <> dest s2 -> retry_safe x = true ->
+  forall r sched, raise_at s1 = Some r -> r <= length (body s1) ->
+  let st := run2t x s1 s2 sched (startt d0) in
+  committedt (q1 st) = false /\ sdt st (File (dest s1)) = d0 (File (dest s1)).
+Proof. exact retry_body_exception_keeps_old. Qed.
+
+Theorem c12_retry_no_temp_after_handled_failure : forall x d0 s1 s2, dest s1 <> dest s2 -> retry_ok x = true ->
+  forall sched, let st := run2t x s1 s2 sched (startt d0) in
+  finishedt (q1 st) = true -> (forall i, ~ In (false, (EUnlink i, RFault)) (trt st)) ->
+  assoct (q1 st) = None /\ forall i, assoct (q2 st) <> Some i -> sdt st (Tmp i) = d0 (Tmp i).
+Proof. exact retry_no_temp_after_handled_failure. Qed.
+
+Theorem c12_retry_two_writers_isolated : forall x d0 s1 s2, dest s1 <> dest s2 -> retry_safe x = true ->
+  forall sched, let st := run2t x s1 s2 sched (startt d0) in
+  (forall i, assoct (q1 st) = Some i -> assoct (q2 st) = Some i -> False) /\
+  (forall i, assoct (q1 st) = Some i \/ assoct (q2 st) = Some i -> d0 (Tmp i) = None /\ sdt st (Tmp i) <> None) /\
+  (forall i, about_to_replace (q1 st) i -> sdt st (Tmp i) = Some (new s1)) /\
+  (forall i, about_to_replace (q2 st) i -> sdt st (Tmp i) = Some (new s2)) /\
+  (forall n, n <> File (dest s1) -> n <> File (dest s2) -> d0 n <> None -> sdt st n = d0 n).
+Proof. exact retry_two_writers_isolated. Qed.
+
+(** The whole property in one statement (hypotheses visible; composes the five theorems above). *)
+Theorem c12_property : forall x d0 s1 s2, dest s1 <> dest s2 -> retry_ok x = true -> proto_outcome_ok x = true ->
+  forall sched, let st := run2t x s1 s2 sched (startt d0) in
+  (sdt st (File (dest s1)) = (if committedt (q1 st) then Some (new s1) else d0 (File (dest s1))) /\
+   sdt st (File (dest s2)) = (if committedt (q2 st) then Some (new s2) else d0 (File (dest s2)))) /\
+  (forall r l b, q1 st = TDone r l b ->
+     b = negb (committedt (q1 st)) /\ (b = true -> sdt st (File (dest s1)) = d0 (File (dest s1)))) /\
+  (forall r, raise_at s1 = Some r -> r <= length (body s1) -> committedt (q1 st) = false) /\
+  (finishedt (q1 st) = true -> (forall i, ~ In (false, (EUnlink i, RFault)) (trt st)) ->
+   assoct (q1 st) = None /\ forall i, assoct (q2 st) <> Some i -> sdt st (Tmp i) = d0 (Tmp i)) /\
+  ((forall i, assoct (q1 st) = Some i -> assoct (q2 st) = Some i -> False) /\
+   (forall i, assoct (q1 st) = Some i \/ assoct (q2 st) = Some i -> d0 (Tmp i) = None /\ sdt st (Tmp i) <> None) /\
+   (forall i, about_to_replace (q1 st) i -> sdt st (Tmp i) = Some (new s1)) /\
+   (forall i, about_to_replace (q2 st) i -> sdt st (Tmp i) = Some (new s2)) /\
+   (forall n, n <> File (dest s1) -> n <> File (dest s2) -> d0 n <> None -> sdt st n = d0 n)).
+Proof. exact whole_property. Qed.
+
+(** Its hypotheses hold for today's class under every run class (8 named subclasses), and for a class whose rename is
+    retried on PermissionError with [else: raise]: not vacuous. *)
+Theorem c12_property_hypotheses_hold :
+  all_classes 8 obj_fixed (fun o => retry_ok (obj_proto o) && proto_outcome_ok (obj_proto o) && reuse_indep o) = true /\
+  all_classes 8 obj_retry_good (fun o => retry_ok (obj_proto o) && proto_outcome_ok (obj_proto o) && reuse_indep o) = true.
+Proof. vm_compute. auto. Qed.
+
+(** One writer alone: a finished use is a good use (returned normally iff committed; complete new content after a
+    commit, previous content otherwise; no temp name changed unless the cleanup unlink was refused). *)
+Theorem c12_retry_good_use : forall x d0 s, retry_ok x = true -> proto_outcome_ok x = true -> forall faults,
+  good_use d0 s (alonet x s faults d0).
+Proof. exact retry_good_use. Qed.
+
+(** A protocol with retries is good iff exhausting the retries takes the failure path: the family whose commit tries
+    the rename n+1 times and continues with [exh] after the last refusal, for every n. *)
+Theorem c12_retry_good_iff_exhaustion_fails : forall c n exh, cfg_ok c = true -> exh_shape exh ->
+  ((forall d0 s faults, good_use d0 s (alonet (retry_proto c n exh) s faults d0)) <-> exh = unlink_tree true).
+Proof. exact retry_good_iff_exhaustion_fails. Qed.
+
+(** The three wrong continuations, each for EVERY number of attempts.  Unconditional commit after the loop (seeded
+    c12_6): the with statement returns normally, the destination keeps its old contents, tmp_1 holds the new data. *)
+Theorem c12_retry_unconditional_commit_after_loop_refuted : forall n,
+  let st := refused_run n (XDone false) [] in
+  q1 st = TDone FNot (Some 1) false /\ sdt st (File 0) = Some [100] /\ sdt st (Tmp 1) = Some [1; 2; 3] /\
+  ~ good_use d_old sc_a st.
+Proof. exact retry_swallowed_exhaustion_refuted. Qed.
+Theorem c12_retry_exhaustion_without_cleanup_refuted : forall n,
+  let st := refused_run n (XDone true) [] in
+  q1 st = TDone FNot (Some 1) true /\ sdt st (File 0) = Some [100] /\ sdt st (Tmp 1) = Some [1; 2; 3] /\
+  ~ good_use d_old sc_a st.
+Proof. exact retry_exhaustion_without_cleanup_refuted. Qed.
+Theorem c12_retry_exhaustion_swallowed_after_cleanup_refuted : forall n,
+  let st := refused_run n (unlink_tree false) [false] in
+  q1 st = TDone FNot None false /\ sdt st (File 0) = Some [100] /\ sdt st (Tmp 1) = None /\
+  ~ good_use d_old sc_a st.
+Proof. exact retry_exhaustion_swallowed_after_cleanup_refuted. Qed.
+
+(** The retry loop as a program: the kernel computes its trees.  With [else: raise] it is good for every class (and the
+    uncollapsed protocol is outside the five-flag family: the theorems of rounds 1-3 alone could not accept it). *)
+Theorem c12_retry_loop_program_ok :
+  all_classes 8 obj_retry_good (fun o => retry_ok (obj_proto o) && proto_outcome_ok (obj_proto o) && reuse_indep o) = true /\
+  x_ok (class_proto obj_retry_good (RSub 0)) =
+    XClose (retry_tree 2 (XDone false) (unlink_tree true) (unlink_tree true)) (unlink_tree true) /\
+  x_ok (class_proto obj_retry_good RGeneric) = x_ok (proto_of_cfg cfg_fixed) /\
+  proto_ok (class_proto obj_retry_good (RSub 0)) = false.
+Proof. exact obj_retry_good_ok. Qed.
+(** Without the else clause: wrong exactly for the class the handler names, right for every other class. *)
+Theorem c12_retry_loop_without_else_refuted :
+  class_proto obj_retry_swallow (RSub 0) = retry_proto cfg_fixed 2 (XDone false) /\
+  retry_ok (class_proto obj_retry_swallow (RSub 0)) = false /\
+  proto_outcome_ok (class_proto obj_retry_swallow (RSub 0)) = false /\
+  cleans (x_ok (class_proto obj_retry_swallow (RSub 0))) false = false /\
+  propagates (x_ok (class_proto obj_retry_swallow (RSub 0))) false = false /\
+  retry_ok (class_proto obj_retry_swallow RGeneric) = true /\
+  retry_ok (class_proto obj_retry_swallow RKbd) = true /\
+  retry_ok (class_proto obj_retry_swallow (RSub 1)) = true.
+Proof. exact obj_retry_swallow_refuted. Qed.
+
+(** The entry prologue of [make_tempfile] (what it does before mkdir and the temp-name loop): inert whenever the object
+    holds no open temp file — today's; keyed on the temp name that nothing resets (seeded c12_5) it removes tmp_N on
+    re-entry, which by then may be another writer's file. *)
+Theorem c12_entry_prologue_keyed_on_stale_name_refuted :
+  entry_inert obj_fixed prologue_fixed = true /\ entry_inert obj_fixed prologue_stale_name = false /\
+  exec prologue_stale_name None (env_of (o_attrs obj_fixed) [Some VNone; Some VTName; Some VDest] false) inert_k
+    = XUnlink (XDone false) (XDone true) (XDone false).
+Proof. exact entry_prologue_examples. Qed.
+
+(** * Reuse histories of one writer interleaved with a concurrent writer (SM/AtomicProduct.v)
+
+    Writer A is one object used for a history [h] of [with] blocks to the destination [k1] (each segment = the scenario of
+    the use + a schedule interleaving it with B; after a finished use that left no temp file A starts again at mkdir:
+    obligations [reuse_entry_touches_nothing_before_creating_its_temp_file] and
+    [reuse_exit_protocol_independent_of_earlier_uses]); writer B is a single use of another file, in flight across A's
+    uses.  For every history, every schedule of every segment (= every kill point, fault pattern and interleaving):
+    B's destination is old or B's complete new content; A and B never hold the same temp name; the temp file B holds did
+    not exist before, exists, and holds exactly what B has written so far — no re-entry of A removes or rewrites it
+    (what seeded c12_5 breaks); nothing else in the directory changes.  Proof: the round-1 invariant, re-based at A's
+    destination, survives the restart of A. *)
+Theorem c12_product_isolated : forall x d0 k1 s2 h, proto_safe x = true -> k1 <> dest s2 -> h <> [] ->
+  (forall u, In u h -> dest (fst u) = k1) ->
+  let st := prunt x s2 h (startt d0) in
+  sdt st (File (dest s2)) = (if committedt (q2 st) then Some (new s2) else d0 (File (dest s2))) /\
+  (forall i, assoct (q1 st) = Some i -> assoct (q2 st) = Some i -> False) /\
+  (forall i, assoct (q2 st) = Some i -> d0 (Tmp i) = None /\ exists ct, sdt st (Tmp i) = Some ct /\ progresst s2 (q2 st) ct) /\
+  (forall n, n <> File k1 -> n <> File (dest s2) ->
+     (forall i, n = Tmp i -> assoct (q1 st) <> Some i /\ assoct (q2 st) <> Some i) -> sdt st n = d0 n).
+Proof. exact proto_product_isolated. Qed.
+
+(** Not vacuous: A succeeds, B opens tmp_1 and writes, A is entered again while B is open (tmp_1 and the stale tmp_2
+    are taken: it uses tmp_3) and completes, B completes. *)
+Theorem c12_product_example :
+  let x := proto_of_cfg cfg_fixed in
+  let sA := {| dest := 0; body := [1]; tail := []; raise_at := None |} in
+  let sA2 := {| dest := 0; body := [2; 3]; tail := []; raise_at := None |} in
+  let sB := {| dest := 1; body := [7; 8]; tail := []; raise_at := None |} in
+  let h := [(sA, repeat (false, false) 5 ++ repeat (true, false) 3);
+            (sA2, repeat (false, false) 8 ++ repeat (true, false) 3)] in
+  let st := prunt x sB h (startt d_old) in
+  committedt (q1 st) = true /\ committedt (q2 st) = true /\
+  sdt st (File 0) = Some [2; 3] /\ sdt st (File 1) = Some [7; 8] /\ sdt st (Tmp 1) = None /\ sdt st (Tmp 2) = Some [777] /\
+  In (false, (EOpen 1, RExist)) (trt st).
+Proof. exact product_example. Qed.
